@@ -12,7 +12,7 @@ from fractions import Fraction as Fr
 
 from common import close_floats, fr, impl
 from dsl import grid_points, params_impl
-from pipeline import init_impl, model_layout
+from pipeline import explicit_case, init_impl, model_layout
 from props.simcommon import base_out, replay_case, run_panel, sim_cases
 
 CANARY = True
@@ -39,18 +39,8 @@ def cases(seed, tier):
     return cs
 
 
-def run_case(case):
-    I = impl()
-    np = I.np
-    info = run_panel(case)
-    out = base_out(info, case)
-    if "skip" in info:
-        out["skipped"] = info["skip"]
-        return out
-    rc = replay_case(info, case)
-    if "raise" in info:
-        out["violations"].append({"clause": "simulate runs on a supported specification", "detail": info["raise"], "key": info["raise_key"], "shrink_case": rc})
-        return out
+def _on_grid(info, tag=""):
+    """(a): simulated values of on-grid agents against the implementation's own value arrays, through the model's layout"""
     mj, V, rows = info["mj"], info["V"], info["rows"]
     G = dict(mj["states"])
     lay = model_layout(mj)
@@ -82,7 +72,42 @@ def run_case(case):
             entry = float(V[t][tuple(idx)]) if idx else float(V[t][()])
             if not close_floats([entry], [row["value"]]):
                 vs.append({"clause": "simulated value equals the value array entry at an on-grid state",
-                           "detail": f"period {t} agent {i} state {row['states']} index {idx}: simulated {fr(row['value'])}, V[{t}]{idx} = {fr(entry)}"})
+                           "detail": f"{tag}period {t} agent {i} state {row['states']} index {idx}: simulated {fr(row['value'])}, V[{t}]{idx} = {fr(entry)}"})
+    return vs, n_on
+
+
+def run_case(case):
+    I = impl()
+    np = I.np
+    info = run_panel(case)
+    out = base_out(info, case)
+    if "skip" in info:
+        out["skipped"] = info["skip"]
+        return out
+    rc = replay_case(info, case)
+    if "raise" in info:
+        out["violations"].append({"clause": "simulate runs on a supported specification", "detail": info["raise"], "key": info["raise_key"], "shrink_case": rc})
+        return out
+    mj, V, rows = info["mj"], info["V"], info["rows"]
+    lay = model_layout(mj)
+    vs, n_on = _on_grid(info)
+    # a second specification in the same process with the same variable and function names but another filter body (the
+    # filter is relaxed to "always true"): its simulation must use its own filter
+    fl = [f for f in info["mj"]["functions"] if f["name"].endswith("_filter")]
+    if fl and not vs:
+        import copy
+
+        mj2 = copy.deepcopy(info["mj"])
+        f2 = next(f for f in mj2["functions"] if f["name"] == fl[0]["name"])
+        f2["body"] = ["or", f2["body"], ["le", ["num", "0"], ["num", "1"]]]
+        case2 = explicit_case(mj2, [info["P"]], on_grid=True, n_agents=case.get("n_agents", 6), allow_ninf=True, seed=case.get("seed", 0),
+                              init={s_: [str(x) for x in v] for s_, v in info["init"].items()}, sim_seed=info["sim_seed"], meta=info["meta"])
+        info2 = run_panel(case2)
+        if "skip" not in info2 and "raise" not in info2:
+            v2, n2 = _on_grid(info2, tag="second specification in the same process (same names, filter relaxed): ")
+            vs.extend(v2)
+            n_on += n2
+            out["hist"]["same_names_other_filter"] = 1
     # (b) solve_and_simulate == solve -> simulate
     cells = 0
     try:
